@@ -75,6 +75,7 @@ def run_check(prop, tier, seed, repo, jobfilter=None, procs=None):
     paths = 0
     repolls = 0
     truncated = 0
+    bounded_runs = []
     for r in results:
         if r.get("crash"):
             continue
@@ -92,6 +93,12 @@ def run_check(prop, tier, seed, repo, jobfilter=None, procs=None):
             if prop not in attr:
                 if ob["status"] != "discharged" and ob["kind"] == "event-match":
                     truncated += 1
+                continue
+            if ob["kind"] == "bounded":
+                # bounded stand-ins are reported, can raise violations, but never count as discharged obligations
+                bounded_runs.append({"check": ob["name"], "result": ob["status"], "detail": (ob.get("detail") or "")[:300], "label": "bounded"})
+                if ob["status"] != "discharged":
+                    violations.append((r, ob))
                 continue
             total += 1
             mine += 1
@@ -163,7 +170,7 @@ def run_check(prop, tier, seed, repo, jobfilter=None, procs=None):
             "backends": {"z3-solver (python API)": discharged},
             "failed_obligations": [{"job": r["job"], "obligation": ob["name"], "status": ob["status"], "detail": (ob.get("detail") or "")[:300]} for r, ob in violations],
             "known_findings_hit": [kf["what"] for _, _, kf in known_hits],
-            "bounded_parts": bounded_parts + cfg.get("bounded_note", []),
+            "bounded_parts": bounded_parts + cfg.get("bounded_note", []) + bounded_runs,
             "undecided_jobs": [{"job": r["job"], "reason": r["undecided"]} for r in undecided],
             "repolls_after_exhaustion": repolls,
             "paths_truncated_by_mismatch_reported_under_other_property": truncated,
